@@ -117,10 +117,63 @@ def certificate(d, m, x, handles, tol=1e-6):
     return out
 
 
+def shaped_case(ctx, seed):
+    """array-valued constraints and bounds on a 2-D variable: every dual() is shaped like its constraint and the certificate
+    identities hold entry by entry (C order)"""
+    from rsome import ro, eco_solver, grb_solver
+    r = np.random.default_rng(seed)
+    rows, cols = int(r.integers(2, 4)), int(r.integers(2, 4))
+    X0 = r.choice([0., 1., 2.], (rows, cols))
+    Cm = r.choice([-2., -1., 1., 2.], (rows, cols))
+    mx = bool(r.random() < 0.5)
+    Lm = r.choice([-1., 0., 1., 2.], (int(r.integers(1, 3)), rows)); Rm = r.choice([-1., 0., 1., 2.], (cols, int(r.integers(1, 3))))
+    name, solver = [('default', None), ('ecos', eco_solver), ('gurobi', grb_solver)][int(r.integers(3))]
+    case = {"shaped": {"seed": seed}, "interface": name}
+    ctx.search_cases += 1; ctx.evaluations += 1
+    with C.quiet():
+        m = ro.Model(); X = m.dvar((rows, cols))
+        (m.max if mx else m.min)((Cm * X).sum())
+        items = []          # (handle, expected shape, gradient tensor G[k..., i, j] in the <= orientation, rhs)
+        B1 = Lm @ X0 + r.choice([0., 1.], (Lm.shape[0], cols))
+        items.append((m.st(Lm @ X <= B1), B1.shape, np.einsum('ki,jl->klij', Lm, np.eye(cols)), B1))
+        B2 = X0 @ Rm - r.choice([0., 1.], (rows, Rm.shape[1]))
+        items.append((m.st(X @ Rm >= B2), B2.shape, -np.einsum('ik,jl->klij', np.eye(rows), Rm), -B2))
+        E = np.zeros((rows, cols, rows, cols))
+        for i in range(rows):
+            for j in range(cols):
+                E[i, j, i, j] = 1.0
+        lo = X0 - r.choice([1., 2.], (rows, cols)); hi = X0 + r.choice([1., 2., 3.], (rows, cols))
+        items.append((m.st(X >= lo), (rows, cols), E, lo))
+        j0 = int(r.integers(1, cols))
+        items.append((m.st(X[:, :j0] <= hi[:, :j0]), (rows, j0), E[:, :j0], hi[:, :j0]))
+        items.append((m.st(X[:, j0:] <= float(hi.max())), (rows, cols - j0), E[:, j0:], np.full((rows, cols - j0), float(hi.max()))))
+        try:
+            (m.solve(display=False) if solver is None else m.solve(solver, display=False))
+            opt = m.get()
+        except Exception:
+            ctx.count('shaped:not-optimal'); return
+    grad = np.zeros((rows, cols)); val = 0.0
+    for h, shp, G, rhs in items:
+        du = np.asarray(h.dual(), dtype=float)
+        want = tuple(shp) if int(np.prod(shp)) > 1 else ()
+        if du.shape != want:
+            ctx.hit('dual-not-shaped-like-its-constraint', {"dual_shape": list(du.shape), "constraint_shape": list(shp), "type": type(h).__name__}, case); return
+        du = du.reshape(shp)
+        grad += np.tensordot(du, G, axes=du.ndim); val += float((du * rhs).sum())
+    tol = 1e-6 if name != 'ecos' else 1e-5
+    if np.max(np.abs(grad - Cm)) > tol * (1 + np.abs(Cm).max()):
+        ctx.hit('certificate-fails:gradient identity (array constraints)', {"residual": (grad - Cm).tolist()}, case); return
+    if abs(val - opt) > tol * (1 + abs(opt)):
+        ctx.hit('certificate-fails:value identity (array constraints)', {"dual_value": val, "optimum": float(opt)}, case); return
+    ctx.count('shaped:certificate-ok:' + name)
+
+
 def run(ctx):
     from rsome import eco_solver, grb_solver
     C.run_difftest(ctx, 'test_dual.py', ctx.n(150, 3000), 'ciarray, compiled rows and LinConstr.dual()/Bounds.dual() read-back')
     ifaces = [('default', None), ('ecos', eco_solver), ('gurobi', grb_solver)]
+    for k in range(ctx.n(60, 1200)):
+        shaped_case(ctx, int(ctx.rng.integers(2 ** 31)))
     for k in range(ctx.n(60, 1200)):
         seed = int(ctx.rng.integers(2 ** 31))
         r = np.random.default_rng(seed)
@@ -155,7 +208,15 @@ def run(ctx):
 
 def replay(rp):
     from rsome import eco_solver, grb_solver
-    c = rp['case']; d = c['desc']
+    c = rp['case']
+    if 'shaped' in c:
+        class _Ctx:
+            def __init__(self): self.hits = []; self.search_cases = 0; self.evaluations = 0
+            def hit(self, k, det, case): self.hits.append({"key": k, "detail": det})
+            def count(self, *a, **k): pass
+        cx = _Ctx(); shaped_case(cx, c['shaped']['seed'])
+        return {"failures": cx.hits, "fails": bool(cx.hits)}
+    d = c['desc']
     solver = {'default': None, 'ecos': eco_solver, 'gurobi': grb_solver}[c['interface']]
     with C.quiet():
         m, x, handles = build(d)
